@@ -22,7 +22,9 @@ META = dict(
            "ConvexHull.vertices -> all points (a superset has the same hull); Delaunay.simplices -> index tuples given by the case (any tuples keep the membership claims valid)"],
     assumptions=["real arithmetic", "ASSUMED, not decided: Dirichlet(1,...,1) weights are uniform on a simplex; Delaunay simplices tile the hull -- with these two lemmas, "
                  "'simplex chosen with probability volume/total volume' (decided) gives uniformity"],
-    outside=["the distributional uniformity itself beyond the reduction above", "n up to 1e5 (n enters only as an array length)", "qhull's triangulation"],
+    outside=["the distributional uniformity itself beyond the reduction above (in the runs of the real code: a chi-square comparison of 20000 samples against a reference "
+             "triangulation, used as the replay oracle for counterexamples of the reduction)",
+             "flat gamuts (fewer sources than receptors with absolute capture or zero baseline): qhull rejects the flat cloud, a precondition of hull-based sampling", "n up to 1e5 (n enters only as an array length)", "qhull's triangulation"],
 )
 
 REC = {}
@@ -108,7 +110,10 @@ class _Qmc:
 
 class _Hull:
     def __init__(self, P, qhull_options=None):
-        self.vertices = np.arange(np.asarray(P).shape[0])
+        # contract: `vertices` indexes points with the same convex hull, in an order of qhull's choosing (here: all points, in the order fixed by the case)
+        order = REC.get("plan_vertices")
+        self.vertices = np.arange(np.asarray(P).shape[0]) if order is None else np.array(order, dtype=int)
+        REC.setdefault("hull_P", []).append(np.asarray(P))
 
 
 class _Deln:
@@ -128,12 +133,40 @@ def _vol(pts, d):
     return abs(symnp.det(Mx) if isinstance(symnp.det(Mx), S) else S(lift(symnp.det(Mx)))) / math.factorial(d)
 
 
-def sample_case(M, npts, d, simplices, indices, seed=7, engine=None, counts=None):
+def _uniform_over_simplices(P, d, seed, engine, N=20000, pval=1e-9):
+    """replay oracle on the real code (real qhull, real generators): N samples must fall into the simplices of a reference triangulation of the hull in proportion
+    to their volumes (chi-square, deterministic per seed; a correct sampler fails with probability < pval).  Independent of the order of the random draws."""
+    from dreye.api.sampling import sample_in_hull
+    from scipy.spatial import ConvexHull, Delaunay
+    from scipy.stats import chi2
+    P = np.asarray(P, dtype=float)
+    try:
+        hv = P[ConvexHull(P).vertices]; tri = Delaunay(hv)
+    except Exception:
+        return True  # degenerate cloud: nothing to compare against
+    vols = np.array([abs(np.linalg.det(hv[sx][1:] - hv[sx][0])) for sx in tri.simplices])
+    if len(vols) < 2 or vols.min() / vols.sum() * N < 50:
+        return True
+    big = np.asarray(sample_in_hull(P, N, seed=seed, engine=engine))
+    loc = tri.find_simplex(big, tol=1e-9)
+    if (loc < 0).sum() > 1e-3 * N:
+        return False
+    cnt = np.bincount(loc[loc >= 0], minlength=len(vols)).astype(float)
+    exp = vols / vols.sum() * cnt.sum()
+    stat = float(((cnt - exp) ** 2 / exp).sum())
+    return bool(stat <= chi2.isf(pval, len(vols) - 1))
+
+
+def sample_case(M, npts, d, simplices, indices, seed=7, engine=None, counts=None, vertex_order=None):
     from dreye.api.sampling import sample_in_hull
     n = len(indices) if engine is None else int(sum(counts))
     P = M.real("P", (npts, d), sample=lambda r, s: r.uniform(0.0, 2.0, size=s))
     REC.clear()
     REC["plan_simplices"] = simplices; REC["plan_indices"] = list(indices); REC["plan_counts"] = list(counts or [])
+    REC["plan_vertices"] = vertex_order
+    order = list(vertex_order) if vertex_order is not None else list(range(npts))
+    # the triangulation's simplices index the hull points (the cloud re-ordered by `vertices`)
+    simplices = [[order[v] for v in sx] for sx in simplices]
     if M.symbolic:
         vols = [_vol([list(np.asarray(P)[i]) for i in sx], d) for sx in simplices]
         tot = fs._sum(vols)
@@ -146,6 +179,11 @@ def sample_case(M, npts, d, simplices, indices, seed=7, engine=None, counts=None
         goals = {"exactly n samples of the cloud's dimension": ok_shape, "identical seeds give identical samples": bool(np.array_equal(out, out2))}
         if ok_shape:
             goals["every sample lies in the convex hull of the cloud"] = all(_lp_in(np.asarray(P, dtype=float), out[i]) for i in range(n))
+            ok_u = _uniform_over_simplices(P, d, seed, engine)
+            # (one oracle for the clauses that pin the sampling scheme down in the symbolic runs: same labels, so that their counterexamples replay against it)
+            goals["a simplex is chosen with probability volume / total volume"] = ok_u
+            for i in range(n):
+                goals[f"sample{i}: convex combination (weights >= 0, sum 1) of the vertices of its simplex, hence in the hull"] = ok_u
         return goals
     goals = {"exactly n samples of the cloud's dimension": out.shape == (n, d)}
     if out.shape != (n, d):
@@ -200,13 +238,29 @@ def _lp_in(P, x):
     return bool(r.status == 0 and r.fun <= 1e-7)
 
 
-def estimator_case(M, m, nsrc, l1, indices, simplices):
+def _cone_member(Pexp, y):
+    """y is a non-negative combination of the rows of Pexp (float mode)"""
+    from scipy.optimize import nnls
+    Pexp = np.asarray(Pexp, dtype=float); y = np.asarray(y, dtype=float)
+    _, res = nnls(Pexp.T, y)
+    return bool(res <= 1e-7 * max(1.0, float(np.linalg.norm(y))))
+
+
+def estimator_case(M, m, nsrc, l1, indices, simplices, relative=True, concrete=False):
     """estimator wiring: plain samples come from the gamut cloud; with l1 every sample has that total capture"""
     from dreye.api.estimator import ReceptorEstimator
-    A, K, base, lb, ub, lbl, ubl = fs.mk_system(M, m, nsrc, "vec", "vec", "pos", "fin")
-    fs.assume_nonneg_system(M, A, K, base, np.zeros((1, 1)), "vec")
-    for v in np.asarray(base):
-        M.assume(v > 0)
+    if concrete:
+        # a concrete well-conditioned system (absolute capture has no baseline: a symbolic system would include flat / empty chromatic clouds, which qhull rejects)
+        cA = np.array([[1.0, 0.5, 0.2], [0.3, 1.0, 0.4], [0.2, 0.3, 1.0]])[:m, :nsrc]
+        cv = dict(K=np.array([1.0, 0.5, 2.0])[:m], base=np.array([0.1, 0.2, 0.3])[:m], lb=np.array([0.1, 0.2, 0.1])[:nsrc], ub=np.array([1.0, 1.5, 2.0])[:nsrc])
+        A = symnp.const(cA) if M.symbolic else cA
+        K, base, lb, ub = [(symnp.const(cv[k]) if M.symbolic else cv[k]) for k in ("K", "base", "lb", "ub")]
+        lbl, ubl = list(np.asarray(lb)), list(np.asarray(ub))
+    else:
+        A, K, base, lb, ub, lbl, ubl = fs.mk_system(M, m, nsrc, "vec", "vec", "pos", "fin")
+        fs.assume_nonneg_system(M, A, K, base, np.zeros((1, 1)), "vec")
+        for v in np.asarray(base):
+            M.assume(v > 0)
     est = ReceptorEstimator(np.ones((m, 2)), K=K, baseline=base)
     est.A = A; est.Epsilon = "heteroscedastic"; est.lb = lb; est.ub = ub
     n = len(indices)
@@ -215,29 +269,39 @@ def estimator_case(M, m, nsrc, l1, indices, simplices):
     l1v = None
     if l1:
         l1v = M.real("l1", (), sample=lambda r, s: r.uniform(1.0, 3.0)); M.assume(l1v > 0)
+    kwr = {} if relative else dict(relative=False)
+    from vf.props.c03 import corners, corner_x
+    # the gamut cloud of the requested capture kind: relative = K (A x + baseline), absolute = A x  (x over the corners of the intensity box)
+    Aeff, beff = fs.effective_model(A, K, base, "vec") if relative else fs.effective_model(A, None, None, "none")
+    cs = corners(nsrc)
+    Pexp = [fs.predict(Aeff, beff, corner_x(c_, lbl, ubl)) for c_ in cs]
     if not M.symbolic:
-        out = np.asarray(est.sample_in_hull(n=n, seed=3, l1=l1v))
-        Aeff, beff = fs.effective_model(A, K, base, "vec")
+        out = np.asarray(est.sample_in_hull(n=n, seed=3, l1=l1v, **kwr))
         goals = {"exactly n samples": out.shape == (n, m)}
         if l1:
             goals["every sample has the requested total capture"] = bool(np.allclose(out.sum(axis=1), float(l1v), rtol=1e-9))
+            # on the real code: 200 samples, each a non-negative combination of the gamut cloud of the requested capture kind (its chromaticity is in the chromatic gamut)
+            many = np.asarray(est.sample_in_hull(n=200, seed=3, l1=l1v, **kwr))
+            goals["the chromatic cloud that is triangulated is the chromatic image of the gamut cloud of the requested capture kind"] = all(_cone_member(Pexp, many[i]) for i in range(200))
         else:
             from vf.props.c03 import lp_member
             goals["every sample is reproducible by in-bound intensities"] = all(lp_member(Aeff, beff, list(out[i]), lbl, ubl) for i in range(n))
         return goals
-    out = np.asarray(est.sample_in_hull(n=n, seed=3, l1=l1v))
+    out = np.asarray(est.sample_in_hull(n=n, seed=3, l1=l1v, **kwr))
     goals = {"exactly n samples": out.shape == (n, m)}
     if out.shape != (n, m):
         return goals
     if l1:
         goals["every sample has the requested total capture"] = M.eq(np.array([fs._sum(list(out[i])) for i in range(n)], dtype=object), np.array([l1v] * n, dtype=object))
+        from dreye.api.barycentric import barycentric_dim_reduction
+        hp = REC.get("hull_P", [])
+        chro = np.asarray(barycentric_dim_reduction(np.array(Pexp, dtype=object).view(symnp.SymArray)))
+        goals["the chromatic cloud that is triangulated is the chromatic image of the gamut cloud of the requested capture kind"] = (
+            len(hp) == 1 and hp[0].shape == chro.shape and M.eq(hp[0], chro))
         # (that the chromaticity is the Dirichlet-weighted combination of the vertex chromaticities is not decided: the inverse barycentric map with
         #  its sqrt constants over symbolic corner sums is out of reach for 3 receptors -- stated as outside)
     else:
         # sample_i = sum_j w_ij P[s_ij]  with P the corner captures  =>  reproducible by x = sum_j w_ij corner_j (in bounds by convexity)
-        from vf.props.c03 import corners, corner_x
-        Aeff, beff = fs.effective_model(A, K, base, "vec")
-        cs = corners(nsrc)
         for i in range(n):
             w = [S(z3.Real(f"dir_{i}_{j}")) for j in range(m + 1)]
             xs = [fs._sum([w[j] * corner_x(cs[simplices[indices[i]][j]], lbl, ubl)[k] for j in range(m + 1)]) for k in range(nsrc)]
@@ -257,6 +321,11 @@ def cases(tier, seed):
     for n in (1, 2, 3) + ((4,) if big else ()):
         for idx in itertools.product(range(2), repeat=n):
             add(f"2-D 4 points 2 triangles n={n} plan={idx}", "sample_case", npts=4, d=2, simplices=tri2, indices=list(idx))
+    # qhull lists the hull vertices in its own order (counter-clockwise in 2-D): the triangulation indexes that re-ordered cloud
+    add("2-D 4 points 2 triangles n=2, hull vertices in the order [2,0,3,1]", "sample_case", npts=4, d=2, simplices=tri2, indices=[0, 1], vertex_order=[2, 0, 3, 1])
+    add("3-D 5 points 2 tetrahedra n=2, hull vertices in the order [4,3,2,1,0]", "sample_case", npts=5, d=3, simplices=[[0, 1, 2, 3], [1, 2, 3, 4]], indices=[1, 0], vertex_order=[4, 3, 2, 1, 0])
+    add("QMC Halton 2-D 2 triangles counts=[1,1], hull vertices in the order [1,2,3,0]", "sample_case", npts=4, d=2, simplices=tri2, indices=[], engine="Halton", counts=[1, 1],
+        vertex_order=[1, 2, 3, 0])
     add("2-D 3 points 1 triangle n=2", "sample_case", npts=3, d=2, simplices=[[0, 1, 2]], indices=[0, 0])
     add("2-D 5 points 3 triangles n=3", "sample_case", npts=5, d=2, simplices=tri3, indices=[2, 0, 1])
     add("3-D 5 points 2 tetrahedra n=2", "sample_case", npts=5, d=3, simplices=[[0, 1, 2, 3], [1, 2, 3, 4]], indices=[1, 0])
@@ -267,4 +336,8 @@ def cases(tier, seed):
     add("estimator 2x2 plain n=2", "estimator_case", m=2, nsrc=2, l1=False, indices=[0, 1], simplices=[[0, 1, 2], [1, 2, 3]])
     add("estimator 2x2 l1 n=2", "estimator_case", m=2, nsrc=2, l1=True, indices=[0, 0], simplices=[[0, 1]])
     add("estimator 3x2 l1 n=2", "estimator_case", m=3, nsrc=2, l1=True, indices=[0, 1], simplices=[[0, 1, 2], [1, 2, 3]])
+    # (absolute capture has no baseline: with fewer sources than receptors the gamut cone is flat and qhull rejects its chromatic image -- three sources here)
+    add("estimator 3x3 (concrete system) l1 n=2 absolute capture", "estimator_case", m=3, nsrc=3, l1=True, indices=[0, 1], simplices=[[0, 1, 2], [1, 2, 3]], relative=False, concrete=True)
+    add("estimator 3x3 (concrete system) l1 n=2 relative capture", "estimator_case", m=3, nsrc=3, l1=True, indices=[1, 0], simplices=[[0, 1, 2], [1, 2, 3]], relative=True, concrete=True)
+    add("estimator 2x2 plain n=2 absolute capture", "estimator_case", m=2, nsrc=2, l1=False, indices=[0, 1], simplices=[[0, 1, 2], [1, 2, 3]], relative=False)
     return C
